@@ -116,6 +116,9 @@ class FlattenBase(Contract):
                ('root-num_leaves-is-the-number-of-appended-leaves', t.sel('num_leaves', last) == l.len - l0.len),
                ('depth-within-limit', cx.old('depth') <= MAXD)] + self.frame_inv(cx)
         cl = cx.st.ghost.get('classified')
+        asked = any(w.startswith('call of a Python callable') for w, _ in cx.st.ghost['trace'])
+        out.append(('every-object-is-classified-by-the-registry-unless-the-predicate-stopped-the-descent',
+                    z3.BoolVal(cl is not None or asked)))
         if cl is not None:
             # the node records the classification made for THIS object before any of its callbacks ran: kind and
             # registration are never re-read afterwards (a flatten function may change the registry meanwhile)
@@ -500,17 +503,3 @@ class FlattenUpTo(Contract):
 
     def frame_exc(self, cx):
         return self.default_frame(cx)
-
-
-@contract
-class ToStringSummary(Contract):
-    """Call-site summary of PyTreeSpec::ToString (repr text is bounded only, DESIGN.md C08): runs Python (repr of keys and
-    metadata), may raise, returns an opaque string."""
-    name = 'optree::PyTreeSpec::ToString'
-    summary_only = True
-
-    def apply(self, eng, st, this, args, n):
-        eng.may_call_python(st, 'repr() of keys / metadata (ToString)', n.get('line'))
-        s_exc = st.clone()
-        eng.throw(s_exc, 'pybind11::error_already_set', n.get('line'), 'from repr()')
-        return [(st, Opaque('str'))]
